@@ -67,6 +67,8 @@ V_ScriptParse(e) ==          \* e.inp = tape; e.res.v = [cmds, used]
                     ELSE IF p.phase = "fail" THEN "parse-accepted-length-mismatch"
                     ELSE IF p.phase \in {"len0", "lenN"} THEN "parse-accepted-truncated-varint"
                     ELSE "parse-accepted-truncated-input")
+     \* a stream that hands out fewer bytes than asked for (pipe, socket): refusing it is fine, mis-reading it is not
+     ELSE IF Raised(e) /\ "stream" \in DOMAIN e /\ e.stream = "short-reads" THEN "ok"
      ELSE IF Raised(e) THEN "parse-raised-on-valid"
      ELSE IF e.res.v.cmds # p.cmds THEN "parse-cmds"
      ELSE IF e.res.v.used # p.used THEN "parse-consumed"
@@ -82,6 +84,7 @@ V_VarintEnc(e) ==            \* e.inp = LE value bytes
 V_VarintRead(e) ==           \* e.inp = tape; e.res.v = [val (LE trimmed), used]
   LET r == ReadVarint(e.inp)
   IN IF ~r.ok THEN (IF Raised(e) THEN "ok" ELSE "varint-accepted-short-read")
+     ELSE IF Raised(e) /\ "stream" \in DOMAIN e /\ e.stream = "short-reads" THEN "ok"
      ELSE IF Raised(e) THEN "varint-read-raised"
      ELSE IF e.res.v.val # r.val THEN "varint-read-value"
      ELSE IF e.res.v.used # r.used THEN "varint-read-consumed"
